@@ -256,10 +256,45 @@ def bucket_matches(bucket, pattern):
   return bucket == pattern or bucket.startswith(pattern)
 
 
+class _Deadline(BaseException):
+  pass
+
+
+class deadline(object):
+  """Bounds a step that runs in the parent process (replays, shrinking): a change of the tested code that makes it
+  loop forever must not hang the check. Hitting the bound is inconclusive, never a violation."""
+
+  def __init__(self, seconds):
+    self.seconds = seconds
+
+  def __enter__(self):
+    import signal
+
+    def on_alarm(signum, frame):
+      raise _Deadline()
+    self.old = signal.signal(signal.SIGALRM, on_alarm)
+    signal.setitimer(signal.ITIMER_REAL, self.seconds)
+    return self
+
+  def __exit__(self, *a):
+    import signal
+    signal.setitimer(signal.ITIMER_REAL, 0)
+    signal.signal(signal.SIGALRM, self.old)
+    return False
+
+
+REPLAY_LIMIT_S = 60
+
+
 def run_replay_file(mod, path):
   with open(path) as f:
     rec = json.load(f)
-  fails = [f for f in mod.replay(rec['case']) if not f['bucket'].startswith(INCONCLUSIVE)]
+  try:
+    with deadline(REPLAY_LIMIT_S):
+      fails = [f for f in mod.replay(rec['case']) if not f['bucket'].startswith(INCONCLUSIVE)]
+  except _Deadline:
+    print('INCONCLUSIVE: replay %s did not finish within %ds' % (os.path.relpath(path, ROOT), REPLAY_LIMIT_S))
+    fails = []
   return rec, fails
 
 
@@ -404,11 +439,14 @@ def _main(argv):
       # skip if the failing input is exactly a listed known finding's input
       if nb <= 4 and hasattr(mod, 'shrink') and not os.environ.get('VF_NOSHRINK'):
         try:
-          case2 = mod.shrink(case, b, time.time() + shrink_budget)
-          if case2 is not None:
-            f2 = [f for f in mod.replay(case2) if f['bucket'] == b]
-            if f2:
-              case, detail = case2, f2[0]['detail']
+          with deadline(shrink_budget * 4 + 120):
+            case2 = mod.shrink(case, b, time.time() + shrink_budget)
+            if case2 is not None:
+              f2 = [f for f in mod.replay(case2) if f['bucket'] == b]
+              if f2:
+                case, detail = case2, f2[0]['detail']
+        except _Deadline:
+          print('NOTE: shrinking did not finish in time, unshrunk case saved')
         except Exception:
           print('NOTE: shrinking crashed, unshrunk case saved\n' + traceback.format_exc())
       path = save_replay(pid, b, case, detail)
